@@ -45,6 +45,7 @@ type LeakScenario struct {
 	Rounds int      `json:"rounds"` // how many times the round is repeated
 	End    string   `json:"end"`    // sup: term | int | cancel | shutdown | trig ; others: stop | cancel
 	Tail   []string `json:"tail"`   // subscriptions opened just before the end and cancelled after termination
+	ReloadMs int    `json:"reloadMs"` // sup: how long a mock's Reload() takes
 }
 
 var libFrame = regexp.MustCompile(`^github\.com/robbyt/(go-supervisor/(supervisor|runnables|internal)|go-fsm)`)
@@ -288,7 +289,7 @@ func leakSup(sc LeakScenario) leakResult {
 			must(err)
 			rs = append(rs, h)
 		default:
-			b := newBase(i, MockSpec{Caps: c, Stop: "f", Outcome: "n"}, rec, &live, teardown)
+			b := newBase(i, MockSpec{Caps: c, Stop: "f", Outcome: "n", ReloadMs: sc.ReloadMs}, rec, &live, teardown)
 			bases = append(bases, b)
 			rs = append(rs, mkRunnable(b))
 		}
@@ -482,6 +483,10 @@ func leakHTTP(sc LeakScenario) leakResult {
 				_, _ = io.Copy(io.Discard, resp.Body)
 				_ = resp.Body.Close()
 			}
+		case "areloadc": // a restart reload left in flight (its readiness probe takes >= 100 ms): the end overlaps it
+			variant.Add(1)
+			go rn.Reload(context.Background())
+			time.Sleep(30 * time.Millisecond)
 		case "idle": // a client connection left open and idle (keep-alive) across the next operations
 			if c, err := net.DialTimeout("tcp", addrs[which.Load()%2], 200*time.Millisecond); err == nil {
 				time.AfterFunc(3*time.Second, func() { _ = c.Close() })
@@ -701,6 +706,9 @@ func genLeakScenario(r interface{ IntN(int) int }) LeakScenario {
 			sc.Round = ops
 		}
 		sc.End = pick(r, []string{"term", "int", "cancel", "shutdown", "trig"})
+		if r.IntN(4) == 0 {
+			sc.ReloadMs = 2 + r.IntN(8)
+		}
 		if r.IntN(3) == 0 {
 			sc.Tail = opsOf([]string{"hup", "subk", "rtrig"}, 1+r.IntN(2))
 			if len(sc.Caps) > 0 && sc.Caps[len(sc.Caps)-1] == "http" {
@@ -720,7 +728,7 @@ func genLeakScenario(r interface{ IntN(int) int }) LeakScenario {
 		sc.Round = opsOf([]string{"reload", "reloadc", "reloada", "req", "idle", "subd", "suba", "unsub"}, 1+r.IntN(3))
 		sc.End = pick(r, []string{"stop", "cancel"})
 		if r.IntN(2) == 0 {
-			sc.Tail = opsOf([]string{"subd", "suba", "req"}, 1)
+			sc.Tail = opsOf([]string{"subd", "suba", "req", "areloadc"}, 1)
 		}
 	case 8:
 		sc.Target = "cluster"
@@ -774,6 +782,17 @@ var leakCorpus = []LeakScenario{
 	{Target: "comp", Round: []string{"reloadm", "subd"}, Rounds: 3, End: "stop"},
 	{Target: "cluster", Round: []string{"push", "subd"}, Rounds: 2, End: "stop"},
 	{Target: "sup", Caps: []string{"1110", "http"}, Round: []string{"hup", "rtrig", "sub"}, Rounds: 2, End: "shutdown", Tail: []string{"subk"}},
+	// a reload trigger still pending (the manager is inside a slow pass) when the supervisor shuts down; the
+	// manager's select is a coin flip, hence the copies
+	{Target: "sup", Caps: []string{"0110"}, ReloadMs: 8, Round: []string{"getmap"}, Rounds: 1, Tail: []string{"hup", "rtrig"}, End: "term"},
+	{Target: "sup", Caps: []string{"0110"}, ReloadMs: 8, Round: []string{"getmap"}, Rounds: 1, Tail: []string{"hup", "rtrig"}, End: "cancel"},
+	{Target: "sup", Caps: []string{"0110", "1000"}, ReloadMs: 8, Round: []string{"usr"}, Rounds: 1, Tail: []string{"hup", "rtrig"}, End: "shutdown"},
+	{Target: "sup", Caps: []string{"0110"}, ReloadMs: 8, Round: []string{"getmap"}, Rounds: 1, Tail: []string{"hup", "rtrig"}, End: "int"},
+	{Target: "sup", Caps: []string{"0110"}, ReloadMs: 8, Round: []string{"usr"}, Rounds: 1, Tail: []string{"hup", "rtrig"}, End: "term"},
+	{Target: "sup", Caps: []string{"1110"}, ReloadMs: 8, Round: []string{"getmap"}, Rounds: 1, Tail: []string{"hup", "rtrig"}, End: "term"},
+	// Stop while a restart reload is in its readiness probe
+	{Target: "http", Round: []string{"req"}, Rounds: 1, Tail: []string{"areloadc"}, End: "stop"},
+	{Target: "http", Round: []string{"reload"}, Rounds: 1, Tail: []string{"areloadc"}, End: "cancel"},
 }
 
 func leakJobs(o Opts) []LeakScenario {
